@@ -426,6 +426,9 @@ pub enum Reject {
     DeserializeOutput,
     Never,
     FinishedMany,
+    /// the requests of this step could not be serialized (an operation's Serialize failed)
+    SerializeRequests,
+    SerializeView,
     Other,
 }
 
@@ -470,6 +473,9 @@ pub struct Lane {
     pub want_canon: bool,
     pub harness_notes: Vec<String>,
     pub codec_notes: Vec<String>,
+    /// registry entries (never, once, many) of batches this bridge registered and then could not
+    /// serialize: the shell never saw those requests, the entries stay (measured, reported)
+    pub undelivered: (usize, usize, usize),
     /// C12: measure every byte-level call (peak allocation, duration) and arm the watchdog
     pub meter: bool,
     pub last_peak: usize,
@@ -501,6 +507,7 @@ impl Lane {
             want_canon: false,
             harness_notes: vec![],
             codec_notes: vec![],
+            undelivered: (0, 0, 0),
             meter: false,
             last_peak: 0,
             last_nanos: 0,
@@ -559,7 +566,7 @@ impl Lane {
             Op::Tiny(t) => (
                 raw.clone(),
                 match t {
-                    TinyOp::Ask(_) | TinyOp::AskN(_) => Kind::Once,
+                    TinyOp::Ask(_) | TinyOp::AskN(_) | TinyOp::Weird(_) => Kind::Once,
                     TinyOp::Watch(_) => Kind::Many,
                     TinyOp::Note(_) => Kind::Never,
                 },
@@ -667,7 +674,8 @@ impl Lane {
                     BridgeError::ProcessResponse(crux_core::ResolveError::FinishedMany) => {
                         Reject::FinishedMany
                     }
-                    _ => Reject::Other,
+                    BridgeError::SerializeRequests(_) => Reject::SerializeRequests,
+                    BridgeError::SerializeView(_) => Reject::SerializeView,
                 };
                 Outcome::Rejected(rej, msg)
             }
@@ -981,6 +989,8 @@ pub struct Finding {
 
 #[derive(Default, Clone, Debug)]
 pub struct SysStats {
+    /// registry entries left behind by batches that could not be serialized
+    pub undelivered_entries: u64,
     /// ids of completed requests handed out again, counted on checked steps only
     pub ids_reused_last: u64,
     pub max_outstanding: usize,
@@ -997,6 +1007,7 @@ pub struct System {
     /// per bridge lane: ids of resolvable requests that have completed
     pub(crate) freed: Vec<std::collections::BTreeSet<u32>>,
     pub garbage_used: bool,
+    reg_before: Vec<Option<(usize, usize, usize)>>,
     /// C12: the valid steps so far in the compact form the allocation-guard labels use
     pub trail: String,
     /// C11: hash chain over (outcome class, canonical batch bytes, view bytes) of every lane
@@ -1070,6 +1081,7 @@ impl System {
             stats: SysStats::default(),
             freed: kinds.iter().map(|_| Default::default()).collect(),
             garbage_used: false,
+            reg_before: vec![],
             trail: String::new(),
             record: false,
             transcript: 0xcbf29ce484222325,
@@ -1113,9 +1125,16 @@ impl System {
 
     /// Executes one valid step on every lane and compares every lane with lane 0.
     /// `check` = false on replayed prefix steps (already checked when their node was visited).
+    /// Registry occupancy of every bridge lane before a call (read by `absorb` when a batch
+    /// turns out to be unserializable).
+    pub fn snapshot_registry(&mut self) {
+        self.reg_before = self.lanes.iter().map(|l| l.gauges().registry).collect();
+    }
+
     pub fn apply(&mut self, step: &Step, check: bool) -> Vec<Finding> {
         let stamp = self.step_no + 1;
         self.step_no += 1;
+        self.snapshot_registry();
         let mut outcomes = vec![];
         let mut answered: Option<Entry> = None;
         match step {
@@ -1297,6 +1316,78 @@ impl System {
         if !findings.is_empty() {
             return findings;
         }
+        // A batch that cannot be serialized (an operation's Serialize fails): every bridge must
+        // answer SerializeRequests, the typed core has emitted the requests. The shell never
+        // sees them, so the twin's requests are dropped; what the bridges registered for them
+        // stays registered (measured here, allowed for in the occupancy oracle, reported in the
+        // evidence - whether those entries should stay is C13's question, not C09's).
+        let ser_fail: Vec<bool> = outcomes
+            .iter()
+            .map(|o| matches!(o, Outcome::Rejected(Reject::SerializeRequests, _)))
+            .collect();
+        if ser_fail.iter().any(|x| *x) {
+            for (li, o) in outcomes.iter().enumerate() {
+                let is_bridge = self.lanes[li].kind.codec().is_some();
+                if is_bridge && !ser_fail[li] {
+                    findings.push(Finding {
+                        key: "unserializable-batch/not-refused-by-every-bridge".into(),
+                        what: format!("{} answered {:?}", self.lanes[li].kind.name(), o),
+                    });
+                }
+                if !is_bridge && !matches!(o, Outcome::Ok(_)) {
+                    findings.push(Finding {
+                        key: "outcome-differs".into(),
+                        what: format!("the typed core answered {o:?} to a step the bridges could not serialize"),
+                    });
+                }
+            }
+            if !findings.is_empty() {
+                return findings;
+            }
+            let mut emitted: Option<(usize, usize, usize)> = None;
+            if let (None, Outcome::Ok(hs)) = (self.lanes[0].kind.codec(), &outcomes[0]) {
+                let mut k = (0, 0, 0);
+                for h in hs {
+                    match self.lanes[0].reqs[*h].kind {
+                        Kind::Never => k.0 += 1,
+                        Kind::Once => k.1 += 1,
+                        Kind::Many => k.2 += 1,
+                    }
+                    self.lanes[0].drop_request(*h);
+                }
+                emitted = Some(k);
+            }
+            for li in 0..self.lanes.len() {
+                let (Some(after), Some(Some(before))) =
+                    (self.lanes[li].gauges().registry, self.reg_before.get(li).copied())
+                else {
+                    continue;
+                };
+                let delta = (
+                    after.0.saturating_sub(before.0),
+                    after.1.saturating_sub(before.1),
+                    after.2.saturating_sub(before.2),
+                );
+                let u = &mut self.lanes[li].undelivered;
+                *u = (u.0 + delta.0, u.1 + delta.1, u.2 + delta.2);
+                self.stats.undelivered_entries += (delta.0 + delta.1 + delta.2) as u64;
+                if let Some(e) = emitted {
+                    if delta.0 > e.0 || delta.1 > e.1 || delta.2 > e.2 {
+                        findings.push(Finding {
+                            key: "unserializable-batch/more-entries-registered-than-requests-emitted".into(),
+                            what: format!(
+                                "{}: registry grew by {delta:?} (never, once, many) for a batch of {e:?}",
+                                self.lanes[li].kind.name()
+                            ),
+                        });
+                    }
+                }
+            }
+            if findings.is_empty() && check {
+                findings.extend(self.check_state());
+            }
+            return findings;
+        }
         let ref_class = outcomes[0].class();
         for (li, o) in outcomes.iter().enumerate().skip(1) {
             if o.class() != ref_class {
@@ -1431,8 +1522,21 @@ impl System {
     pub fn check_state(&mut self) -> Vec<Finding> {
         let mut findings = vec![];
         let v0 = self.lanes[0].view();
+        // the model state whose view cannot be serialized: the typed core has a view, every
+        // bridge must answer SerializeView
+        let unserializable = self.lanes[0].kind.codec().is_none()
+            && matches!(&v0, Ok(v) if v.fussy.0 == crate::app::FUSSY_MARKER);
         for li in 1..self.lanes.len() {
             let v = self.lanes[li].view();
+            if unserializable {
+                if !matches!(&v, Err(e) if e.contains("could not serialize view model")) {
+                    findings.push(Finding {
+                        key: "view/unserializable-view-not-refused".into(),
+                        what: format!("{} answered {:?}", self.lanes[li].kind.name(), v),
+                    });
+                }
+                continue;
+            }
             if v != v0 {
                 findings.push(Finding {
                     key: "view-differs".into(),
@@ -1457,6 +1561,8 @@ impl System {
                 let (ln, lo, lm) = lane.live_by_kind();
                 // every notification keeps a `Never` entry (K3, C13's business); more `Never`
                 // entries than notifications sent means a used-up request is still registered
+                let (un, uo, um) = lane.undelivered;
+                let (ln, lo, lm) = (ln + un, lo + uo, lm + um);
                 if never > ln {
                     findings.push(Finding {
                         key: "registry/used-up-entry-not-removed".into(),
